@@ -108,6 +108,11 @@ func genRP(t *rapid.T) RPCase {
 }
 
 func runRP(c RPCase, rec *h.Rec) error {
+	_, err := guardNoPofP(c.Params, c.Key, rec, func() error { return runRPInner(c, rec) })
+	return err
+}
+
+func runRPInner(c RPCase, rec *h.Rec) error {
 	s := c.Params
 	params, err := s.Build()
 	if err != nil {
@@ -145,7 +150,7 @@ func runRP(c RPCase, rec *h.Rec) error {
 			s1 = v
 		}
 	}
-	enc := func(ln int, m []*big.Int) *rlwe.Ciphertext { return freshCt(pOf(ln), sOf[ln], false, m, lvl, rng, "uniform") }
+	enc := func(ln int, m []*big.Int) *rlwe.Ciphertext { return freshCt(pOf(ln), sOf[ln], false, m, lvl, rng, "uniform", s.NTT) }
 	dec := func(ct *rlwe.Ciphertext) []*big.Int { return phase(pOf(ct.LogN()).RingQ(), ct, sOf[ct.LogN()], false) }
 
 	// generous hard bound: every operation is at most (logN+2) rounds of "double the noise and add one key switch",
